@@ -242,7 +242,7 @@ def san_key(out):
         return ("fault-sig" + m.group(1), "", "", m.group(0))
     return None
 
-def batch_run(exe, lines, timeout=300, env=None, per_case_prefix=None):
+def batch_run(exe, lines, timeout=300, env=None, per_case_prefix=None, max_crashes=400, on_excess="infra"):
     """Feed `lines` (list of str, one case each) to `exe` on stdin; the driver answers exactly one stdout
     line per case.  If the driver dies (sanitizer abort, fault, watchdog) the offending case gets
     a result {'crash': (kind, fn, file, detail), 'raw': tail} and the run resumes after it.
@@ -277,8 +277,14 @@ def batch_run(exe, lines, timeout=300, env=None, per_case_prefix=None):
         res[i + k] = {"crash": key, "raw": out[-2500:]}
         i = i + k + 1
         restarts += 1
-        if restarts > 400:
-            raise Infra("too many driver crashes (>400); last:\n" + out[-2000:])
+        if restarts > max_crashes:
+            if on_excess == "skip":
+                # the code under test dies on case after case (each death is already a verdict of its own): the rest of the
+                # batch is not run - a check must end with a verdict in bounded time, not with a rig timeout
+                for j in range(i, len(lines)):
+                    if res[j] is None: res[j] = {"crash": ("skipped", "", "", "not run: %d driver deaths before it" % restarts), "skipped": True, "raw": ""}
+                return res
+            raise Infra("too many driver crashes (>%d); last:\n" % max_crashes + out[-2000:])
     return res
 
 def hexs(b):
